@@ -18,15 +18,15 @@
 
 using namespace Vector::BLF;
 
-enum Sym { O_MISSING, O_UNWRITABLE, O_IN, O_OUT, O_AGAIN, READ, WRITE, CLOSE, DESTROY, NSYM };
-static const char * symname[] = {"open(missing)", "open(unwritable)", "open(in)", "open(out)", "open-again", "read", "write", "close", "destroy"};
+enum Sym { O_MISSING, O_UNWRITABLE, O_IN, O_OUT, O_AGAIN, READ, WRITE, CLOSE, DESTROY, O_AGAIN_OTHER, NSYM };
+static const char * symname[] = {"open(missing)", "open(unwritable)", "open(in)", "open(out)", "open-again", "read", "write", "close", "destroy", "open-again(other mode)"};
 
 // mode-respecting alphabet given the abstract state: 0 = never opened, 1 = open for reading, 2 = open for writing, 3 = closed after a session
 static std::vector<int> allowed(int st) {
     switch (st) {
     case 0: return {O_MISSING, O_UNWRITABLE, O_IN, O_OUT, CLOSE, DESTROY};
-    case 1: return {O_AGAIN, READ, CLOSE, DESTROY};
-    case 2: return {O_AGAIN, WRITE, CLOSE, DESTROY};
+    case 1: return {O_AGAIN, O_AGAIN_OTHER, READ, CLOSE, DESTROY};
+    case 2: return {O_AGAIN, O_AGAIN_OTHER, WRITE, CLOSE, DESTROY};
     default: return {O_MISSING, CLOSE, DESTROY};
     }
 }
@@ -67,7 +67,7 @@ static Outcome run_history(const std::vector<int> & h, int fsz, bool controlled,
     auto fail = [&](const std::string & k, const std::string & t) { if (oc.errkey.empty()) { oc.errkey = k; oc.err = t; } };
     std::vector<ObjectHeaderBase *> got;
     TrackedCan::freed.clear();
-    uint32_t nwritten = 0;
+    uint32_t nwritten = 0; bool wrote_session = false;
     int base_threads = native_threads();
 #ifdef WITH_ALLOC
     oc.err.reserve(256); oc.errkey.reserve(64);
@@ -85,7 +85,8 @@ static Outcome run_history(const std::vector<int> & h, int fsz, bool controlled,
             case O_MISSING: f->open((dir + "/nonexistent-dir/x.blf").c_str(), std::ios_base::in); break;
             case O_UNWRITABLE: f->open((dir + "/nonexistent-dir/y.blf").c_str(), std::ios_base::out); break;
             case O_IN: f->open((dir + "/in_" + std::to_string(fsz) + ".blf").c_str(), std::ios_base::in); open = true; break;
-            case O_OUT: f->open(outpath.c_str(), std::ios_base::out); open = true; break;
+            case O_OUT: f->open(outpath.c_str(), std::ios_base::out); open = true; wrote_session = true; break;
+            case O_AGAIN_OTHER: if (st == 2) f->open((dir + "/in_1.blf").c_str(), std::ios_base::in); else f->open((outpath + ".other").c_str(), std::ios_base::out); break;
             case O_AGAIN: if (st == 1) f->open((dir + "/in_1.blf").c_str(), std::ios_base::in); else f->open((outpath + ".other").c_str(), std::ios_base::out); break;
             case READ: {
                 ObjectHeaderBase * o = f->read();
@@ -114,6 +115,11 @@ static Outcome run_history(const std::vector<int> & h, int fsz, bool controlled,
     }
     int left = 0;
     if (controlled) left = sched_end();
+    if (wrote_session) {      // everything handed to write() before close()/destruction must be in the file
+        twin::Bytes fb = twin::load(outpath), stream; std::string pe = twin::parse(fb, stream);
+        size_t n = 0, p = 0; while (p + 16 <= stream.size() && !memcmp(&stream[p], "LOBJ", 4)) { uint32_t osz = twin::get32(&stream[p + 8]); if (osz < 16) break; n++; p += osz; }
+        if (!pe.empty()) fail("written-file-malformed", pe); else if (n != nwritten) fail("written-objects-missing-from-file", std::to_string(n) + " of " + std::to_string(nwritten) + " objects in the file");
+    }
     if (left) fail("thread-left-behind", "controller sees " + std::to_string(left) + " unfinished threads");
     for (auto * o : got) delete o;      // objects returned by read() belong to the caller (a library-side delete shows as ASan double free)
     for (uint32_t t = 1; t <= nwritten; t++) {
@@ -154,7 +160,7 @@ int main(int argc, char ** argv) {
     long n = 0, controlled_n = 0, exhaustive_n = 0, reads = 0, writes = 0; std::map<int, long> lens; std::string sample;
     for (long idx = from; idx < to; idx++) {
         hc::begin_case(std::to_string(idx));
-        wd::arm(60, "c13-history");
+        wd::arm(25, "c13-history");
         Rng r(Rng::mix(seed ^ 0xC13, (uint64_t)idx));
         std::vector<int> h; int fsz;
         if (idx < (long)ex.size()) { h = ex[idx]; fsz = sizes[idx % 6]; exhaustive_n++; }
